@@ -95,6 +95,34 @@ pub fn alphabet(n: usize, nf: usize, with_chdir: bool) -> Vec<T> {
     out
 }
 
+/// Which of the two checks a forward (DAG) slice is aimed at: the source/sink symbols of its alphabet.
+#[derive(Clone, Copy, Debug, PartialEq, Eq)]
+pub enum Aim {
+    Toctou,
+    Chroot,
+}
+
+/// Reduced terminator alphabet for block `k` of an `n`-block function whose targets only go
+/// FORWARD (`t > k`, the function is a DAG): none | return | jump t | cond-pair t,t' (every
+/// ordered pair, so both orders of the two successors) | call source -> r | call sink -> r |
+/// call sink without return target.
+pub fn forward_alphabet(n: usize, k: usize, aim: Aim) -> Vec<T> {
+    let (source, sink) = match aim {
+        Aim::Toctou => (Callee::Check, Callee::Use),
+        Aim::Chroot => (Callee::Chroot, Callee::Chdir),
+    };
+    let mut out = vec![T::NoJump, T::Return, T::Call(sink, None)];
+    for a in k + 1..n {
+        out.push(T::Branch(a));
+        out.push(T::Call(source, Some(a)));
+        out.push(T::Call(sink, Some(a)));
+        for b in k + 1..n {
+            out.push(T::CBranch(a, b));
+        }
+    }
+    out
+}
+
 // ------------------------------------------------------------------ naming / building the raw IR
 
 pub fn fun_addr(f: usize) -> u64 {
@@ -119,7 +147,7 @@ pub fn ext_tid(c: Callee) -> Tid {
     let a = format!("{:08x}", 0xe000 + 0x10 * c.ext_index() as u64);
     tid_at(&format!("FUN_{a}"), &a)
 }
-const FLAGS: [&str; 4] = ["ZF", "CF", "SF", "OF"];
+const FLAGS: [&str; 6] = ["ZF", "CF", "SF", "OF", "PF", "AF"];
 
 fn callee_tid(c: Callee) -> Tid {
     match c {
@@ -140,7 +168,7 @@ pub fn build(case: &Case) -> Project {
                 T::Branch(a) => vec![Term { tid: jmp_tid(f, k, 0), term: Jmp::Branch(blk_tid(f, *a)) }],
                 // every block tests its own flag, so that no condition of one block decides another one
                 T::CBranch(a, b) => vec![
-                    Term { tid: jmp_tid(f, k, 0), term: Jmp::CBranch { target: blk_tid(f, *a), condition: reg(FLAGS[k % 4], 1) } },
+                    Term { tid: jmp_tid(f, k, 0), term: Jmp::CBranch { target: blk_tid(f, *a), condition: reg(FLAGS[k % 6], 1) } },
                     Term { tid: jmp_tid(f, k, 1), term: Jmp::Branch(blk_tid(f, *b)) },
                 ],
                 T::Call(c, r) => vec![Term { tid: jmp_tid(f, k, 0), term: Jmp::Call { target: callee_tid(*c), return_: r.map(|r| blk_tid(f, r)) } }],
@@ -159,7 +187,11 @@ pub fn build(case: &Case) -> Project {
         e.tid = t;
         externs.push(e);
     }
-    project_x64(subs, externs)
+    let mut project = project_x64(subs, externs);
+    for f in FLAGS {
+        project.register_set.insert(var(f, 1));
+    }
+    project
 }
 
 // ------------------------------------------------------------------ reference control-flow relation
